@@ -482,6 +482,55 @@ func FuzzVerifC18Validator(f *testing.F) {
 	f.Fuzz(rapid.MakeFuzz(c18ValidatorProp(rec)))
 }
 
+// Small-scope exhaustive: every (allow rule, requested rule) pair of single
+// rules over a tiny alphabet, no sampling.
+func TestVerifC18ValidatorAllPairs(t *testing.T) {
+	rec := verifkit.New(t, "C18", "exhaustive: all pairs (allow rule, requested rule) of single rules with groups in {'',apps,*} x resources in {pods,pods/status,*/status,*} x verbs in {get,*} x names in {none,[a],[*]} plus URL rules {/api,/api/*,*} x verbs; distinct=pair")
+	var rules []rbacv1.PolicyRule
+	for _, g := range []string{"", "apps", "*"} {
+		for _, r := range []string{"pods", "pods/status", "*/status", "*"} {
+			for _, v := range []string{"get", "*"} {
+				for _, n := range [][]string{nil, {"a"}, {"*"}} {
+					rules = append(rules, rbacv1.PolicyRule{APIGroups: []string{g}, Resources: []string{r}, Verbs: []string{v}, ResourceNames: n})
+				}
+			}
+		}
+	}
+	for _, u := range []string{"/api", "/api/*", "*"} {
+		for _, v := range []string{"get", "*"} {
+			rules = append(rules, rbacv1.PolicyRule{NonResourceURLs: []string{u}, Verbs: []string{v}})
+		}
+	}
+	bad := 0
+	shard, shards := verifkit.Shard()
+	for i, a := range rules {
+		if i%shards != shard {
+			continue
+		}
+		for _, q := range rules {
+			rec.Eval()
+			rej, v := c18CheckValidator([]rbacv1.PolicyRule{a}, []rbacv1.PolicyRule{q})
+			if v != "" {
+				if bad++; bad <= 3 {
+					t.Errorf("%s", v)
+				}
+				continue
+			}
+			if len(rej) == 0 {
+				rec.Label("pair:accepted")
+				rec.NonTrivial(verifkit.JSON([]any{a, q}), func() any { return map[string]any{"allow": a, "request": q, "verdict": "accepted"} })
+			} else if c18Uncovered([]rbacv1.PolicyRule{q}, []rbacv1.PolicyRule{a}) == nil {
+				rec.Label("pair:rejected-though-covered(incomplete,allowed)")
+			} else {
+				rec.Label("pair:rejected")
+			}
+		}
+	}
+	if bad > 3 {
+		t.Errorf("... and %d more pairs", bad-3)
+	}
+}
+
 // Expand agrees with the reference on what a rule set allows: a concrete
 // request is allowed by the rules iff one of the expanded granular rules,
 // read back as a single-element policy rule, allows it. (Expand encodes "all
